@@ -30,6 +30,8 @@ SPECS = [
     {'conv': 'cf1d', 'ny': 2, 'nx': 5, 'origin': [176.5, -20.0], 'step': [2.0, 1.0]},
     {'conv': 'cf1d', 'ny': 2, 'nx': 3, 'origin': [402500.0, 6215000.0], 'step': [250.0, 250.0]},
     {'conv': 'cf2d', 'ny': 3, 'nx': 4, 'bounds': 'vars', 'holes': [[0, 0]], 'repeat_corner': [1, 2]},
+    # data stored x-major ahead of the coordinates: Dataset.sizes lists x before y (non-square)
+    {'conv': 'cf1d', 'ny': 3, 'nx': 5, 'leading_transposed': True, 'ydim': 'y', 'xdim': 'x'},
 ]
 FORMATS = ['geojson', 'shapefile', 'wkt', 'wkb']
 
@@ -38,6 +40,15 @@ def gen(tier, seed):
     for s in SPECS:
         for f in FORMATS:
             yield {'spec': s, 'format': f}
+
+
+def native_oracle(spec, n):
+    """the native index of face n as JSON, from the dataset description alone: row-major components over the face grid (y, x) / (j, i)"""
+    shape = datasets.expected_grids({k: v for k, v in spec.items() if k != 'repeat_corner'})['face']
+    comps = [int(x) for x in numpy.unravel_index(n, shape)]
+    if spec['conv'] in ('cf1d', 'cf2d', 'shoc_simple'):
+        return comps
+    return ['face'] + comps
 
 
 def ring(p):
@@ -91,7 +102,7 @@ def test(inp):
                     if props.get('linear_index') != n:
                         return f'feature {k}: linear_index {props.get("linear_index")} but it is cell {n}'
                     idx = props.get('index')
-                    want = json.loads(json.dumps(ds.ems.wind_index(n)))
+                    want = native_oracle(spec, n)
                     if idx != want or ds.ems.ravel_index(ds.ems.wind_index(n)) != n:
                         return f'feature {k}: native index {idx} does not identify cell {n} ({want})'
             elif fmt == 'shapefile':
@@ -112,7 +123,7 @@ def test(inp):
                     lin = next((v for f, v in rec.items() if f.startswith('linear')), 'absent')
                     if lin != n:
                         return f'record {k}: linear index field holds {lin!r} but it is cell {n} (fields {names})'
-                    if json.loads(rec['index']) != json.loads(json.dumps(ds.ems.wind_index(n))):
+                    if json.loads(rec['index']) != native_oracle(spec, n):
                         return f'record {k}: native index {rec["index"]} does not identify cell {n}'
             else:
                 path = os.path.join(tmp, 'g.' + fmt)
